@@ -339,6 +339,5 @@ Lemma list_upd_map : forall A B (f : A -> B) l i v,
   list_upd (map f l) i (f v) = map f (list_upd l i v).
 Proof. induction l; destruct i; simpl; intros; auto. now rewrite IHl. Qed.
 
-Lemma binop_not_andor : forall op, op <> And -> op <> Or ->
-  forall b1 b2, int_binop op b1 b2 = int_binop op b1 b2.
-Proof. reflexivity. Qed.
+Lemma binop_cases : forall op, op = And \/ op = Or \/ (op <> And /\ op <> Or).
+Proof. destruct op; auto; right; right; split; discriminate. Qed.
